@@ -224,3 +224,36 @@ Ltac satG_base tac :=
   | |- satG _ _ (emit _) => apply satG_emit; intros ?s ?Hg; tac
   | |- satG _ _ (upd_pair _ _) => apply satG_upd_pair; intros ?s ?Hg; tac
   end.
+
+(* the trivial step relation, and a for_each rule that remembers membership *)
+Definition mp_true : mprop.
+Proof. refine (MProp (fun _ _ _ => True) _ _); auto. Defined.
+
+Lemma satG_for_each_in (G : state -> Prop) (P : mprop) A (l : list A) (k : A -> M) :
+  (forall a, In a l -> satG G P (k a)) -> satG G P (for_each l k).
+Proof.
+  intros H. induction l as [|x t IH]; cbn [for_each]; [apply satG_nop|].
+  apply satG_seq; [apply H; left; reflexivity|apply IH; intros a Ha; apply H; right; exact Ha].
+Qed.
+
+Ltac satG_split_eq :=
+  repeat match goal with
+  | |- satG _ _ nop => apply satG_nop
+  | |- satG _ _ (seq _ _) => apply satG_seq
+  | |- satG _ _ (with_state _ _) => apply satG_with_state; intros ?s0 ?Hg0
+  | |- satG _ _ (for_each _ _) => apply satG_for_each_in; intros ?a ?Hin
+  | |- satG _ _ (if ?b then _ else _) => destruct b eqn:?
+  | |- satG _ _ (match ?x with _ => _ end) => destruct x eqn:?
+  | |- satG _ _ (let '(_, _) := ?x in _) => destruct x eqn:?
+  end.
+
+Ltac sat_split_eq :=
+  repeat match goal with
+  | |- sat _ nop => apply sat_nop
+  | |- sat _ (seq _ _) => apply sat_seq
+  | |- sat _ (with_state _ _) => apply sat_with_state_val; intros ?s0
+  | |- sat _ (for_each _ _) => apply sat_for_each; intros
+  | |- sat _ (if ?b then _ else _) => destruct b eqn:?
+  | |- sat _ (match ?x with _ => _ end) => destruct x eqn:?
+  | |- sat _ (let '(_, _) := ?x in _) => destruct x eqn:?
+  end.
